@@ -24,9 +24,9 @@ from vlib.rec import REC
 
 ID = "C14"
 LEVEL = "exploration"
-DECIDING = ["C14.detailed_balance", "C14.pattern_is_saved_adjacency", "C14.decomposition"]
+DECIDING = ["C14.detailed_balance", "C14.pattern_is_saved_adjacency", "C14.decomposition", "C14.saved_spectrum"]
 RULE = ("pipelines = (grid spec: rotation algorithm x n_b in {1,4,5,8}, direction algorithm x n_o in {4,7,12,13}, 2-3 unequal radii, factor in "
-        "{0.5,1,2,1500,0.01}, both position modes (Cartesian only for direction sets that surround the origin); energies uniform +-20 kJ/mol around 0, -4e5 or +1e4 kJ/mol, optionally with a 430 kJ/mol deep well, written to a "
+        "{0.5,1,2,1500,0.01}, both position modes (Cartesian only for direction sets that surround the origin); energies uniform +-20 kJ/mol around 0, -4e5 or +1e4 kJ/mol, optionally with a 430 kJ/mol deep well or a 350 kJ/mol-per-shell ramp (range above, neighbour differences below the cap), written to a "
         "generated xvg file; T in [200,400] K; solver settings (sigma None,'LR'), (small positive sigma,'LM'), the workflow's own rule with its "
         "k=12, k in {3,6}, tol 1e-5 and 1e-10; for half of the pipelines one DecompositionTool object serves all settings in random order). Non-trivial = connected grid with >=14 cells, both neighbour families; distinct by pipeline digest")
 ASSUMPTIONS = ["the zero spectral shift shipped as SQRA default is excluded by the statement (singular shift-invert)",
@@ -102,9 +102,9 @@ def decomposition_agrees_with_dense_solver(self, tol, maxiter, which, sigma, k, 
             problems.append(f"{len(vals)} eigenvalues for k={k}")
         if np.any(np.diff(vals) > etol):
             problems.append({"not_descending": vals})
-        miss = [float(v) for v in vals if np.min(np.abs(dense - v)) > etol]
+        miss = unmatched(vals, dense, etol)
         if miss:
-            problems.append({"not_in_dense_spectrum": miss[:3], "tolerance": etol})
+            problems.append({"not_matched_one_to_one_in_dense_spectrum": miss[:3], "tolerance": etol})
         ctx = CTX.get(id(M)) or CTX.get("last_rate_matrix")
         top_targeted = (sigma is None and which == "LR") or (sigma is not None and which == "LM" and float(sigma) > 0)
         if top_targeted and ctx is not None and ctx.get("connected") and ctx["Q"].shape == Md.shape and np.array_equal(ctx["Q"], Md):
@@ -217,6 +217,11 @@ def pipeline(spec, rng, nprng, d, repo):
     offset = spec.get("energy_offset", 0.0)
     spread = spec.get("energy_spread", 20.0)
     energies = offset + nprng.uniform(-spread, spread, size=n)
+    if spec.get("ramp"):
+        # a repulsive wall: +350 kJ/mol per shell - every neighbour difference stays below the 500 kJ/mol cap, the total range does not
+        n_o_ = len(np.unique(np.round(np.load(paths["full_array"])[:, :3] / np.linalg.norm(np.load(paths["full_array"])[:, :3], axis=1, keepdims=True), 8), axis=0))
+        shell = (np.arange(n) // max(1, spec["n_b"])) // max(1, n_o_)
+        energies = energies + 350.0 * (shell.max() - shell)
     if spec.get("deep_well"):
         # a few cells in a deep well: neighbour differences of ~430 kJ/mol, still below the documented 500 kJ/mol cap
         k = max(1, n // 10)
@@ -293,7 +298,7 @@ def pipeline(spec, rng, nprng, d, repo):
             settings.append(("direct", dict(tol=rng.choice([1e-5, 1e-10]), maxiter=100000, sigma=None, which="LR", k=kk)))
             settings.append(("direct", dict(tol=1e-10, maxiter=100000, sigma=gap * rng.uniform(0.05, 0.4), which="LM", k=kk)))
             settings.append(("direct", dict(tol=1e-8, maxiter=100000, sigma=None, which=rng.choice(["SR", "LM", "SM"]), k=kk)))
-    if spec.get("deep_well") or spec["factor"] not in (0.5, 1, 2):
+    if spec.get("deep_well") or spec.get("ramp") or spec["factor"] not in (0.5, 1, 2):
         # ARPACK needs very many iterations on stiff matrices (deep wells; rotational and translational rates differing by f^2 ~ 1e6):
         # fewer settings and a lower iteration cap keep the quick tier quick (non-convergence is counted as skipped)
         settings = [(h, dict(kw, maxiter=5000)) for h, kw in settings[:4]]
@@ -312,6 +317,7 @@ def pipeline(spec, rng, nprng, d, repo):
                      "output": ns(eigenvalues=os.path.join(d, "eigenvalues.npy"), eigenvectors=os.path.join(d, "eigenvectors.npy"))}
                 exec(compile(body, "workflow/run_sqra:run_decomposition", "exec"), g)
                 REC.classes["stage decomposition: literal workflow rule body"] += 1
+                judge_saved_spectrum(os.path.join(d, "eigenvalues.npy"), os.path.join(d, "eigenvectors.npy"), Qd, kw)
             else:
                 kw2 = dict(kw)
                 if isinstance(kw2["sigma"], str):
@@ -330,6 +336,49 @@ def pipeline(spec, rng, nprng, d, repo):
             else:
                 REC.crashed("C14.call_raised", e)
     return ctx["connected"], n
+
+
+def unmatched(values, dense, etol):
+    """eigenvalues that cannot be matched one-to-one (each dense eigenvalue used at most once) within etol: a value returned twice, or
+    several small eigenvalues merged into one number, is a disagreement with the dense solver even if that number is itself an eigenvalue"""
+    dense = list(np.asarray(dense))
+    miss = []
+    for v in sorted(np.real(np.asarray(values)), reverse=True):
+        if not dense:
+            miss.append(float(v))
+            continue
+        k = int(np.argmin([abs(x - v) for x in dense]))
+        if abs(dense[k] - v) <= etol:
+            dense.pop(k)
+        else:
+            miss.append(float(v))
+    return miss
+
+
+def judge_saved_spectrum(path_val, path_vec, Qd, kw):
+    """what the workflow keeps are the FILES written by rule run_decomposition: every saved eigenvalue must be an eigenvalue of the matrix"""
+    mon = "C14.saved_spectrum"
+    try:
+        vals = np.load(path_val)
+        vecs = np.load(path_vec)
+        dense = np.linalg.eigvals(Qd)
+        rho = np.abs(dense).max()
+        etol = 10 * float(kw["tol"]) * rho + 1e-9 * rho
+        sig = None if kw["sigma"] in (None, "None") else float(kw["sigma"])
+        if sig is not None and np.min(np.abs(dense - sig)) < 1e-6 * max(1.0, rho):
+            REC.skip(mon, "sigma is itself an eigenvalue")
+            return
+        problems = []
+        if vals.shape != (12,) or vecs.shape != (Qd.shape[0], 12):
+            problems.append({"shapes": [list(vals.shape), list(vecs.shape)]})
+        miss = unmatched(vals, dense, etol)
+        if miss:
+            problems.append({"saved_eigenvalues_not_matched_one_to_one_in_dense_spectrum": miss[:4], "tolerance": etol, "rho": rho})
+        if np.any(np.diff(np.real(vals)) > etol):
+            problems.append({"saved_eigenvalues_not_descending": np.real(vals)})
+        REC.check(mon, not problems, {"problems": problems, "setting": kw})
+    except Exception as e:
+        REC.crashed("C14.oracle_error", e)
 
 
 def drive(spec, rng, nprng, repo):
@@ -362,7 +411,7 @@ def make_spec(rng):
     t = "[" + ", ".join(str(x) for x in r) + "]"
     cart = rng.random() < 0.4 and surrounds(oalg, n_o)
     return {"b": f"{balg}_{n_b}" if n_b > 1 else "1", "o": f"{oalg}_{n_o}", "t": t, "factor": rng.choice([0.5, 1, 2, 2, 1500, 0.01]), "cartesian": cart,
-            "deep_well": rng.random() < 0.25,
+            **({"deep_well": True} if (z := rng.random()) < 0.25 else {"ramp": True} if (z < 0.5 and T_ >= 3) else {}),   # never both: differences must stay below the cap
             "T": rng.choice([200.0, 273.0, 300.0, 400.0]), "D": rng.choice([0.1, 1.0, 27.5]), "route": rng.choice(["workflow", "workflow", "library"]),
             "n_b": n_b, "energy_offset": rng.choice([0.0, 0.0, -4.0e5, 1.0e4]), "shared_tool": rng.random() < 0.5}
 
@@ -380,6 +429,10 @@ def run_shard(spec):
              3: {"b": "4", "o": "ico_7", "t": "[0.2, 0.35]", "factor": 1500, "cartesian": False, "T": 300.0, "D": 1.0, "route": "library", "n_b": 4},
              5: {"b": "1", "o": "ico_12", "t": "[0.2, 0.3, 0.4]", "factor": 1500, "cartesian": False, "T": 300.0, "D": 1.0, "route": "library", "n_b": 1,
                  "energy_spread": 5.0},   # uniformly tiny rates (~1/f^2): slow eigenvalues of order 1e-9 are still eigenvalues
+             6: {"b": "1", "o": "ico_12", "t": "[3, 6, 9]", "factor": 1500, "cartesian": False, "T": 300.0, "D": 1.0, "route": "workflow", "n_b": 1,
+                 "energy_spread": 5.0},   # the same through the literal workflow rules (their saved files are judged)
+             7: {"b": "4", "o": "ico_7", "t": "[0.2, 0.3, 0.4]", "factor": 1, "cartesian": False, "T": 300.0, "D": 1.0, "route": "workflow", "n_b": 4,
+                 "ramp": True},
              4: {"b": "1", "o": "ico_12", "t": "[0.2, 0.3, 0.45]", "factor": 2, "cartesian": False, "T": 220.0, "D": 1.0, "route": "library", "n_b": 1, "deep_well": True},
              1: {"b": "1", "o": "ico_12", "t": "[0.2, 0.3]", "factor": 1, "cartesian": False, "T": 300.0, "D": 1.0, "route": "workflow", "n_b": 1},
              2: {"b": "4", "o": "cube3D_4", "t": "[0.2, 0.35]", "factor": 2, "cartesian": False, "T": 273.0, "D": 1.0, "route": "library", "n_b": 4}}
